@@ -159,6 +159,23 @@ def build_unit(unit, repo, verus_dir):
     return tmpl, meta
 
 
+def build_kani_gen(spec, repo_copy):
+    """Generated Kani sibling module: verbatim copies of functions that are nested inside other functions (and therefore
+    not nameable from a harness).  Each is emitted as `pub(crate) ` + its signature text + `{` + its body + `}`."""
+    out = ["// GENERATED on every run by vlib/extract.py from the tree under verification -- do not edit.\n",
+           "// Verbatim copies of nested functions; the only change is `pub(crate)` in front of each signature.\n",
+           "#![allow(unused_imports, dead_code)]\nuse super::*;\n"]
+    for line in spec.get("uses", []):
+        out.append(line + "\n")
+    meta = {"functions": []}
+    for f in spec["functions"]:
+        body, m = extract_body(repo_copy, f)
+        out.append("\n// from %s line %d\npub(crate) %s {%s}\n" % (m["file"], m["line"], m["signature"], body))
+        meta["functions"].append(m)
+    meta["drops"] = spec.get("drops", [])
+    return "".join(out), meta
+
+
 if __name__ == "__main__":
     import sys
     t, m = build_unit(sys.argv[1], sys.argv[2] if len(sys.argv) > 2 else "/repo", os.path.join(os.path.dirname(os.path.dirname(os.path.abspath(__file__))), "verus"))
